@@ -403,7 +403,7 @@ func setupEnv() {
 	_ = os.WriteFile(filepath.Join(staticDir, "secret.txt"), []byte(staticMarker+"\n"), 0o644)
 	_ = os.WriteFile(filepath.Join(staticDir, "sub", "deep.txt"), []byte(staticMarker+" deep\n"), 0o644)
 
-	remote := pa.Block(16)
+	remote := pa.Block(48)
 	mk := func(id string, passthrough bool, dash cred) *serverEnv {
 		e := &serverEnv{ID: id, BindPort: pa.Get(), HTTPPort: pa.Get(), MuxPort: pa.Get(), DashPort: pa.Get(), DashCred: dash, Passthrough: passthrough}
 		text := fmt.Sprintf(`
@@ -538,6 +538,7 @@ webServer.assetsDir = %s
 	startClient(lateB, lateBN)
 
 	setupRaceServer(pa)
+	setupReload(pa, remote[16:])
 	httpTargets = buildHTTPTargets()
 	muxTargets = buildMuxTargets()
 	webAPIs = []*webAPI{
